@@ -14,6 +14,9 @@ pub struct StrictOpts {
     pub trusted_prefix: usize,
     /// allow arbitrary bytes before the header (foreign files only)
     pub allow_leading_junk: bool,
+    /// do not insist on the binary comment line after the header (files whose
+    /// first revision comes from a foreign producer)
+    pub binary_comment_optional: bool,
 }
 
 #[derive(Clone, Debug)]
@@ -556,6 +559,8 @@ impl<'a> Reader<'a> {
             }
             let mut entries = BTreeMap::new();
             loop {
+                // white-space and comments are legal before the `trailer` keyword
+                p.skip_ws();
                 if p.starts(b"trailer") {
                     break;
                 }
@@ -686,10 +691,16 @@ impl<'a> Reader<'a> {
 
 /// Read `img` strictly. See the module documentation for what is demanded.
 pub fn read_strict(img: &[u8], opts: &StrictOpts) -> R<StrictDoc> {
+    // Bytes before the header: offsets are counted from the header (Adobe implementation note 13/15)
+    let img = if opts.allow_leading_junk {
+        &img[img.windows(5).position(|w| w == b"%PDF-").ok_or("no %PDF- header")?..]
+    } else {
+        img
+    };
     let mut rd = Reader { img, covered: Vec::new() };
     // ---- header
     let hstart = if opts.allow_leading_junk {
-        img.windows(5).position(|w| w == b"%PDF-").ok_or("no %PDF- header")?
+        0
     } else {
         if !img.starts_with(b"%PDF-") {
             return Err("file does not start with %PDF-".into());
@@ -821,6 +832,11 @@ pub fn read_strict(img: &[u8], opts: &StrictOpts) -> R<StrictDoc> {
                 if Some(*n) == s.stream_id {
                     continue;
                 }
+                // superseded objects inside the trusted prefix were validated when that image was
+                // accepted (their indirect Lengths resolve in *their* revision's view, not the newest)
+                if *offset < opts.trusted_prefix && merged.get(n) != Some(e) {
+                    continue;
+                }
                 if !parsed.contains_key(offset) {
                     let ind = rd.indirect_at(*offset, &resolve_len).map_err(|e| format!("entry for object {} {}: {}", n, gen, e))?;
                     parsed.insert(*offset, ind);
@@ -888,6 +904,12 @@ pub fn read_strict(img: &[u8], opts: &StrictOpts) -> R<StrictDoc> {
             }
         }
     }
+    // object-stream containers are structural, whether or not the newest revision still uses them
+    for (k, o) in doc.objects.iter() {
+        if is_objstm_obj(o) {
+            objstm_ids.insert(k.0);
+        }
+    }
     for c in &objstm_ids {
         doc.objects.retain(|k, _| k.0 != *c);
     }
@@ -921,7 +943,7 @@ pub fn read_strict(img: &[u8], opts: &StrictOpts) -> R<StrictDoc> {
     if pos < img.len() {
         check_gap_with_tails(img, pos, img.len(), &check_gap)?;
     }
-    if !has_binary_comment && !opts.allow_leading_junk {
+    if !has_binary_comment && !opts.allow_leading_junk && !opts.binary_comment_optional {
         return Err("no binary comment line after the header".into());
     }
 
